@@ -959,8 +959,10 @@ class Oracle:
         return base
 
     # which objects have to be stored: the registered ones that were added or changed, and every
-    # object without an oid that a stored object refers to
-    def closure(self, snap):
+    # object without an oid that a stored object refers to.  `weak=True` also follows weak references
+    # (serialize.py stores the new target of a weak reference, "optimistically"; the property neither
+    # demands nor forbids that), so: closure(strong) <= stored <= closure(strong + weak).
+    def closure(self, snap, weak=True):
         roots = [h for h in snap.registered if h in snap.added or snap.changed[h]]
         stored, todo = [], list(roots)
         while todo:
@@ -970,7 +972,7 @@ class Oracle:
             stored.append(h)
             for t in tree_leaves((snap.args[h] or []) + snap.state[h]):
                 th = int(t[1:])
-                if snap.oid[th] is None and th not in stored:
+                if (weak or t[0] == 's') and snap.oid[th] is None and th not in stored:
                     todo.append(th)
         return stored
 
@@ -1006,15 +1008,32 @@ class Oracle:
                              % (snap.exc,))
         if failed:
             return
-        want = sorted(snap.post_oid[h] for h in stored if snap.post_oid[h] is not None)
         got = sorted(o for o, _ in snap.stored)
-        if want != got or any(snap.post_oid[h] is None for h in stored):
-            missing = [(snap.db, o) for o in want if o not in got]
-            self.s.violation(self.sig('C14:stored-set', missing if not [o for o in got if o not in want] else []),
-                             'commit stored oids %s; reachable-or-added new objects and changed objects are %s%s'
-                             % ([o.hex() for o in got], [o.hex() for o in want],
+        must = self.closure(snap, weak=False)
+        noid = [h for h in must if snap.post_oid[h] is None]
+        may = set(snap.post_oid[h] for h in stored)
+        missing = [snap.post_oid[h] for h in must if snap.post_oid[h] is not None and snap.post_oid[h] not in got]
+        extra = [o for o in got if o not in may]
+        # and whatever is stored must have its own new strong targets stored as well
+        by_oid = {snap.post_oid[h]: h for h in stored if snap.post_oid[h] is not None}
+        for o in got:
+            h = by_oid.get(o)
+            if h is None:
+                continue
+            for t in tree_leaves((snap.args[h] or []) + snap.state[h]):
+                th = int(t[1:])
+                if t[0] == 's' and snap.oid[th] is None:
+                    if snap.post_oid[th] is None:
+                        noid.append(th)
+                    elif snap.post_oid[th] not in got:
+                        missing.append(snap.post_oid[th])
+        if missing or extra or noid or len(set(got)) != len(got):
+            self.s.violation(self.sig('C14:stored-set', [(snap.db, o) for o in missing] if not (extra or noid) else []),
+                             'commit stored oids %s; not stored although new and reachable from stored objects: %s; '
+                             'stored although neither changed, added nor reachable: %s%s'
+                             % ([o.hex() for o in got], [o.hex() for o in missing], [o.hex() for o in extra],
                                 ''.join('; object %d (%s) is reachable and new but got no oid' % (
-                                    h, type(snap.objs[h]).__name__) for h in stored if snap.post_oid[h] is None)))
+                                    h, type(snap.objs[h]).__name__) for h in sorted(set(noid)))))
         # every object referred to by a stored record must exist in its database afterwards
         # (checked when loading: a reference leads to the object with the same id)
 
@@ -1062,7 +1081,10 @@ class Oracle:
         s = self.s
         for snap in events:
             stored = self.closure(snap)
+            got = {o for o, _ in snap.stored}
             for h in stored:
+                if snap.post_oid[h] not in got:
+                    continue
                 toks = []
                 me = (snap.db, snap.post_oid[h])
                 s.edges[me] = []              # strong references of the current revision, with repetitions
@@ -1175,8 +1197,7 @@ def gen_case(rng, thorough=False):
     ndb = 2 if rng.random() < (0.45 if thorough else 0.35) else 1
     case = dict(ndb=ndb, xrefs=[1 if rng.random() < 0.93 else 0, 1],
                 oids=[gen_oids(rng, 12), gen_oids(rng, 8), []], ops=[],
-                legacy=rng.random() < 0.5, legacy_weak=rng.random() < 0.5, fresh_each=rng.random() < 0.5,
-                goon=rng.random() < 0.7)
+                legacy=rng.random() < 0.5, legacy_weak=rng.random() < 0.5, fresh_each=rng.random() < 0.5)
     ops = case['ops']
     weak_p = rng.choice([0.0, 0.1, 0.1, 0.25])
     counter = [0]
@@ -1231,17 +1252,13 @@ def gen_case(rng, thorough=False):
             ops.append(['foreign', victim, rng.choice(['A2', 'X', 'B2'])])
             ops.append(['set', rng.choice(allnames), 'g', ['r', victim]])
             ops.append(['commit'])
-            if not case['goon']:
-                return case
-            continue
+            return case
         if txn and rng.random() < 0.5:
             ops.append(['touch', rng.choice(allnames)])
-        if rng.random() < 0.05:                 # a commit that fails while pickling, then the retry
+        if rng.random() < 0.04:                 # a commit that fails while pickling (the case ends there)
             victim = rng.choice(allnames)
-            ops += [['poison', victim], ['touch', victim], ['commit'], ['unpoison', victim]]
-            for n in fresh:
-                if rng.random() < 0.5:
-                    ops.append(['root', home[n], n, n])
+            ops += [['poison', victim], ['touch', victim], ['commit']]
+            return case
         ops.append(['commit'])
     return case
 
